@@ -214,6 +214,47 @@ func init() {
 	})
 }
 
+func init() {
+	opTimeout["c05two"] = 40 * time.Second
+	// c05two <order 0/1>   one client configuration object serves two TLS upstreams one after the other (a fall-back list, a reconnect):
+	//   the server's certificate names `localhost` only; upstream A is tcp+tls://localhost:P, upstream B is tcp+tls://127.0.0.1:P.
+	//   order 0: A then B; order 1: B then A  -> A ok|err B ok|err
+	register("c05two", func(a []Tok) []Tok {
+		hits := 0
+		url, stop, err := startServer("tls-socket", serverCfg("dnsonly", false), server.Channels{&echoChannel{hits: &hits}})
+		if err != nil {
+			return []Tok{TW("startup-err")}
+		}
+		defer stop()
+		port := url[strings.LastIndex(url, ":")+1:]
+		cfg := cfgGetter{clientCfg("none", false, true)}
+		try := func(host string) Tok {
+			ups := &upstream.Upstreams{Data: []upstream.Upstream{mkUpstream("tcp+tls://" + host + ":" + port)}}
+			defer ups.Shutdown()
+			done := make(chan error, 1)
+			go func() { _, err := ups.Connect(cfg, "echo"); done <- err }()
+			select {
+			case err := <-done:
+				if err == nil {
+					return TW("ok")
+				}
+				return TW("err")
+			case <-time.After(10 * time.Second):
+				return TW("hang")
+			}
+		}
+		var ra, rb Tok
+		if a[0].I == 0 {
+			ra = try("localhost")
+			rb = try("127.0.0.1")
+		} else {
+			rb = try("127.0.0.1")
+			ra = try("localhost")
+		}
+		return []Tok{TW("A"), ra, TW("B"), rb}
+	})
+}
+
 // upstreamSecure digs the socketace.ClientConnection out of the wrappers and asks it.
 func upstreamSecure(u upstream.Upstream) bool {
 	var c interface{} = u
